@@ -33,7 +33,8 @@ def build(cfg, like=None):
     c = full(cfg)
     t = targets.make(c["target"], **c["tkw"])
     if like is None:
-        like = idblob.Likelihood(t, mode=c["mode"], shift=c["shift"])
+        like = idblob.Likelihood(t, mode=c["mode"], shift=c["shift"], pointwise=c.get("pointwise", False),
+                                 shared_counter=idblob.SHARED)
     pt = idblob.Transform(t)
     periodic, reflective = t.periodic, t.reflective
     if c["bc"] != "target":
